@@ -28,6 +28,8 @@ def mutants(prog):
     from .common import source_sub
     G = "deepali.core.grid"
     specs = [
+        ('round_decimals scales its argument in place', 'deepali.core.math', 'round_decimals', 'tensor = tensor * scale', 'tensor *= scale', 'T1.apply'),
+        ('apply_transform rounds world coordinates by default', 'deepali.core.grid', 'Grid.apply_transform', 'elif to_axes is Axes.GRID:\n            decimals = 6', 'else:\n            decimals = 6', 'T1.apply'),
         ("grid->cube offset", G, "Grid.transform", "offset=one / size - one", "offset=-one", "Grid.transform"),
         ("cube->grid offset", G, "Grid.transform", "offset=half_size - 0.5", "offset=half_size", "Grid.transform"),
         ("corners scale", G, "Grid.transform", "torch.diag(2 / (size - 1))", "torch.diag(2 / size)", "Grid.transform"),
